@@ -11,9 +11,11 @@ import numpy as np
 from harness import common as C
 from harness import c01 as H1
 
-RULE = ('FFT cases: every shape in {1..9}^2 (all parity pairs, square and not) plus a few up to 24x17, Q in {1,2,3,1.5,2.37,1.2}, '
+RULE = ('Every case evaluates the property predicate on the real code; the Lean model comparison runs on all cases in the thorough / '
+        'widened tiers and on a sample in quick (the fixed near-symmetric block always; 60-70% of small, 25-30% of larger random cases).  '
+        'FFT cases: every shape in {1..9}^2 (all parity pairs, square and not) plus a few up to 24x17, Q in {1,2,3,1.5,2.37,1.2}, '
         'complex (70%) / real input, float64 (85%) / float32 configuration: energy of focus/unfocus/pad2d, unfocus(focus)=id, '
-        'focus(unfocus)=id, unfocus(focus(f,Q),1)=pad2d(f,Q), Wavefront.focus (given and DEFAULT Q) / unfocus incl. space and dx '
+        'focus(unfocus)=id, unfocus(focus(f,Q),1)=pad2d(f,Q) and its dual, focus(f,Q)=focus(pad2d(f,Q),1), Wavefront.focus (given and DEFAULT Q) / unfocus incl. space and dx '
         'round trip; band-complete cases: (m,Qy) and (n,Qx) drawn from all pairs with m*Q integer, '
         'Q in {1,1.5,2,2.5,3,4/3,5/3,1.25}, shifts from {0,+-1,+-2.5,(1.5,-2.25)}, input dtype from {complex128, float64, complex64, '
         'float32, int64, bool}, memory layouts C/F/transposed/strided/negative-stride/read-only, arguments as tuple/list/ndarray/'
@@ -178,6 +180,15 @@ def pred_fft(c, verbose=False):
             ok, err = close(back, pad, at)
             if not ok:
                 return False, f'unfocus(focus(f,Q),1) != pad2d(f,Q): max err {err:.3g}', {}
+            back = pr.focus(unf, 1)
+            ok, err = close(back, pad, at)
+            if not ok:
+                return False, f'focus(unfocus(f,Q),1) != pad2d(f,Q): max err {err:.3g}', {}
+            # theorem focus_is_focus_of_pad: the padded route is the unpadded route applied to the padded array
+            for nm, fn_, a in (('focus', pr.focus, foc), ('unfocus', pr.unfocus, unf)):
+                ok, err = close(fn_(pad, 1), a, at)
+                if not ok:
+                    return False, f'{nm}(f,Q) != {nm}(pad2d(f,Q),1): max err {err:.3g}', {}
         # the Wavefront methods: energy, spaces, and the sample spacing must come back after unfocus(focus(.))
         try:
             efl, wvl_, dx_ = 123.4, 0.55, 0.731
@@ -196,7 +207,7 @@ def pred_fft(c, verbose=False):
             return False, f'Wavefront.focus() with its default Q changes the energy by a factor {energy(wd.data) / E0:.12g}', {}
         ok, err = close(wb.data, np.asarray(f, dtype=complex), at)
         if verbose:
-            print(f'  Wavefront: max |unfocus(focus(wf)) - wf| = {err:.3g}; dx {dx_} -> {w1.dx:.6g} -> {wb.dx:.6g}')
+            print(f'  Wavefront: max |unfocus(focus(wf)) - wf| = {err:.3g}; dx {dx_} -> {_sc(w1.dx):.6g} -> {_sc(wb.dx):.6g}')
         if not ok or wb.space != 'pupil' or abs(wb.dx - dx_) > 1e-12 * dx_ or wb.wavelength != wvl_:
             return False, (f'Wavefront.unfocus(Wavefront.focus(wf, Q=1), Q=1) != wf: max err {err:.3g}, space {wb.space!r}, '
                            f'dx {wb.dx!r} (was {dx_})'), {}
@@ -314,6 +325,11 @@ def _known_witness():
 KNOWN['asp-pads-never-crops'] = {'witness': _known_witness}
 
 
+def _sc(v):
+    """a scalar that may have been handed over as a 0-d / one-element ndarray -> Python float (for messages)"""
+    return float(np.asarray(v).ravel()[0])
+
+
 def pred_asp(c, verbose=False):
     """free space.  extras['known'] counts literal checks skipped because they are exactly the known finding"""
     ft, pr, config = _impl()
@@ -357,10 +373,25 @@ def pred_asp(c, verbose=False):
             s = pr.angular_spectrum(g, wvl, dx, z + z2, Q=1)
             az = pr.angular_spectrum(g, wvl, dx, z, Q=1)
             # the precomputed-transfer-function branch ("clobbers all other arguments": give it nonsense for them)
+            # ... and the SAME precomputed transfer-function object serves several propagations (that is what it is precomputed
+            # for): it must come back unchanged from every use, and a second use must repeat the first
+            tf_before = tf.copy()
+            g_before = g.copy()
             btf = pr.angular_spectrum(g, wvl * 3, dx * 7, -z - 1.0, Q=5, tf=tf)
+            if not np.array_equal(tf, tf_before):
+                return False, ('angular_spectrum(field, ..., tf=tf) modified the caller\'s precomputed transfer function in place '
+                               f'(max change {float(np.abs(tf - tf_before).max()):.3g}): the next propagation with it is wrong'), {}
+            btf2 = pr.angular_spectrum(g, wvl, dx, z, Q=1, tf=tf)
+            if not np.array_equal(btf, btf2) or not np.array_equal(g, g_before):
+                return False, ('a second angular_spectrum(field, tf=tf) with the same field and transfer-function objects differs '
+                               'from the first, or the field was modified in place'), {}
             w0 = pr.Wavefront(np.asarray(f, dtype=complex), wvl, dx)
             wq = w0.free_space(dz=z, Q=Qn)
             wt = pr.Wavefront(np.asarray(g, dtype=complex), wvl, dx).free_space(tf=tf)
+            wt2 = pr.Wavefront(np.asarray(g, dtype=complex), wvl, dx).free_space(tf=tf)
+            if not np.array_equal(tf, tf_before) or not np.array_equal(wt.data, wt2.data):
+                return False, ('Wavefront.free_space(tf=tf) modified the caller\'s precomputed transfer function in place, or a second '
+                               'propagation with the same transfer-function object differs from the first'), {}
             # a chain of Wavefront.free_space calls: +z then -z comes back (the Wavefront carries the caller's wvl / dx objects)
             wg = pr.Wavefront(np.asarray(g, dtype=complex), wvl, dx)
             wchain = wg.free_space(dz=z, Q=1).free_space(dz=-z, Q=1)
@@ -379,14 +410,14 @@ def pred_asp(c, verbose=False):
         # two evaluations of the exponent that associate differently (z1 + z2 vs z1, z2) differ by a few eps * phase
         at_add = max(at, 16 * eps * phase)
         if verbose:
-            print(f'  dx / lambda = {dx / (wvl / 1e3):.3g}; max phase on the band {phase:.3g} rad; max ||tf|-1| = {um:.3g} '
+            print(f'  dx / lambda = {_sc(dx) / (_sc(wvl) / 1e3):.3g}; max phase on the band {phase:.3g} rad; max ||tf|-1| = {um:.3g} '
                   f'(min |tf| = {float(np.abs(tf).min()):.3g}); energy ratio - 1 = {energy(a) / energy(f) - 1:.3g}; '
                   f'A_0 f has shape {a0.shape} (f: {f.shape}); max |A_-z A_z g - g| = {float(np.abs(b - g).max()):.3g}; '
                   f'max |A_z A_z2 g - A_(z+z2) g| = {float(np.abs(s12 - s).max()):.3g}; '
                   f'max |A(tf=tf) g - A_z g| = {float(np.abs(btf - az).max()):.3g}')
         if not (um <= (1e-6 if et == ETOL32 else 1e-12)):
             return False, (f'transfer function is not unit modulus: max ||H|-1| = {um:.3g}, min |H| = {float(np.abs(tf).min()):.3g} '
-                           f'(dx = {dx / (wvl / 1e3):.3g} wavelengths)'), {}
+                           f'(dx = {_sc(dx) / (_sc(wvl) / 1e3):.3g} wavelengths)'), {}
         ok, rel = eclose(energy(a), energy(f), et)
         if not ok:
             return False, f'free-space propagation changes the energy by a factor {energy(a) / energy(f):.12g}', {}
@@ -511,6 +542,13 @@ def correspondence(ctx):
 
 
 def _corr(ctx, ft, pr, config):
+    import os, sys, time
+    _t = [time.time()]
+
+    def _prof(name):
+        if os.environ.get('VERIF_PROFILE'):
+            print(f'profile C02 {name}: {time.time() - _t[0]:.1f} s', file=sys.stderr)
+        _t[0] = time.time()
     shapes = list(itertools.product(range(1, 10), repeat=2))
     lines, todo = [], []
 
@@ -526,9 +564,12 @@ def _corr(ctx, ft, pr, config):
         if not ok:
             ctx.pred_fail('fft_energy', c, detail)
             continue
-        if m * n <= 81 or ctx.rng.random() < 0.3:
+        # the Lean model side is an interpreted double sum and dominates the run time: the quick tier sends a sample of the cases
+        # to it (every case still evaluates the property's predicate on the real code); widened / thorough: all small cases
+        M, N = ex['focus'].shape
+        p_model = 1.0 if (ctx.thorough or ctx.widen) else (0.7 if M * N <= 120 else 0.25)
+        if (m * n <= 81 or ctx.rng.random() < 0.3) and ctx.rng.random() < p_model:
             f = make_input(c['shape'], c['dtype'], c['seed'])
-            M, N = ex['focus'].shape
             lines.append(f'fft2 -1 {m} {n} {M} {N} {arr2w(f)}')
             lines.append(f'pad {m} {n} {M} {N} {arr2w(f)}')
             todo.append(('fft', c, ex, (M, N), len(lines) - 2))
@@ -561,7 +602,10 @@ def _corr(ctx, ft, pr, config):
         q = f'{C.f2w(c["Q"][0])} {C.f2w(c["Q"][1])} {C.f2w(c["shift"][0])} {C.f2w(c["shift"][1])}'
         K1, L1 = ft.next_fast_len(m + M - 1), ft.next_fast_len(n + N - 1)
         cost = m * n * M * N + (K1 * L1 * (K1 + L1) if K1 * L1 * (K1 + L1) <= 5000 else 0)
+        fixed_block = c['seed'] >= 5000 and c['seed'] < 5100 and c.get('forms') is None and c.get('layout') == 'C'
         if cost > ctx.scale(6000, 12000) and ctx.rng.random() < 0.8:
+            continue
+        if not (ctx.thorough or ctx.widen or fixed_block) and ctx.rng.random() > (0.6 if cost <= 2000 else 0.3):
             continue          # the model side is an interpreted O(n^4) double sum: run it on the smaller cases and a sample of the rest
         lines.append(f'rtmdft {m} {n} {M} {N} {q} {arr2w(f)}')
         lines.append(f'dftband {m} {n} {M} {N} {q} {arr2w(f)}')
@@ -571,6 +615,7 @@ def _corr(ctx, ft, pr, config):
         else:
             todo.append(('band_nocz', c, ex, (M, N), len(lines) - 2))
 
+    _prof('fft+band python')
     # ---- free space
     acases = [gen_asp(ctx.rng, s) for _ in range(ctx.scale(2, 14)) for s in shapes]
     acases += [gen_asp(ctx.rng, (int(ctx.rng.integers(10, 25)), int(ctx.rng.integers(10, 18)))) for _ in range(ctx.scale(10, 120))]
@@ -588,19 +633,21 @@ def _corr(ctx, ft, pr, config):
         if m * n <= 81:
             g = ex['g']
             mm, nn = g.shape
-            if mm * nn <= 200:
+            if mm * nn <= 200 and (ctx.thorough or ctx.widen or mm * nn <= 60 or ctx.rng.random() < 0.5):
                 hdr = f'{mm} {nn} {C.f2w(c["wvl"])} {C.f2w(c["dx"])} {C.f2w(c["z"])}'
                 lines.append(f'asptf {hdr}')
                 lines.append(f'asp {hdr} {arr2w(g)}')
                 lines.append(f'asptfb {mm} {nn} {arr2w(ex["tf"])} {arr2w(g)}')
                 todo.append(('asp', c, ex, (mm, nn), len(lines) - 3))
 
+    _prof('free_space python')
     # ---- fftfreq table
     nmax = ctx.scale(40, 200)
     ff_at = len(lines)
     lines += [f'fftfreq {n}' for n in range(1, nmax + 1)]
 
     rep = driver(lines)
+    _prof('lean driver')
     for kind, c, ex, (M, N), at in todo:
         et, tol = tols(c)
         m, n = c['shape']
@@ -721,7 +768,9 @@ MANIFEST_ENTRY = {
              'sqrt, complex conjugation): (1) orthogonality sum_k e(k d/L) = L [L | d]; (2) E E^H = 1 for the normalised centred / '
              'shifted DFT kernel over a full period, and abstract Parseval from it; (3) focus and unfocus with the generated shift order / '
              'norm / transform / pad offset conserve energy INCLUDING the zero padding, for every padded shape >= the input; pad2d alone '
-             'conserves energy; unfocus(focus(f,1),1) = f and focus(unfocus(F,1),1) = F for every shape; (4) dft2 / idft2 with the '
+             'conserves energy; unfocus(focus(f,1),1) = f and focus(unfocus(F,1),1) = F for every shape; focus(f,Q) = focus(pad2d(f,Q),1) '
+             'as arrays (likewise unfocus) and hence unfocus(focus(f,Q),1) = pad2d(f,Q), focus(unfocus(F,Q),1) = pad2d(F,Q) sample for '
+             'sample for every padded shape of any parity (every Q >= 1); (4) dft2 / idft2 with the '
              'generated kernel sign, flags, wiring, scalars and norms conserve energy onto the full band (M = m Qy, N = n Qx integers >= '
              'm, n) and idft2(dft2 f) = f for every shift; the same (energy and round trip) for czt2 / iczt2 as interpreters over the '
              'generated statement list, signs, glue, wiring and constants; (5) the transfer function built from the GENERATED coefficient '
@@ -731,7 +780,7 @@ MANIFEST_ENTRY = {
              'norm flags of BOTH branches of angular_spectrum conserves energy, is the identity at z=0, composes additively and is undone '
              'at -z on the grid it works on; the tf= branch conserves energy for every unit-modulus tf and equals the z branch; for Q != 1 '
              'the output at z=0 is pad2d(f,Q) (theorem asp_padded_at_zero_is_pad = the known finding). ONLY COMPARED (no theorem): '
-             'unfocus(focus(f,Q),1) = pad2d(f,Q) for Q > 1; the Wavefront wrappers (spaces, dx round trip); fftfreq table.'),
+             'the Wavefront wrappers (spaces, dx round trip); fftfreq table.'),
     'note': ('Known finding asp-pads-never-crops: angular_spectrum with Q != 1 (default Q=2) returns the padded grid and never crops, so '
              'the literal "identity at zero distance / undoes itself / composes additively" hold on the padded grid only; no safe repair '
              '(cropping back loses the diffracted energy). Evanescent-wave physics is out of scope (the Fresnel transfer function is what '
